@@ -38,6 +38,27 @@ def _prepare():
 THOROUGH = {"default": (core.NCPU, 3000)}
 
 
+def _reap_leftovers():
+    """kills every process that still carries this run's token (orphaned Manager servers / workers started by the code under test):
+    a leftover process that keeps the check's stdout open must not make the check look as if it never ended. Shard processes do not reap
+    (their parent does)."""
+    tok = os.environ.get("KDV_RUN_TOKEN")
+    if not tok or "--shard" in sys.argv:
+        return
+    import signal
+    me = os.getpid()
+    needle = ("KDV_RUN_TOKEN=" + tok).encode()
+    for d in os.listdir("/proc"):
+        if not d.isdigit() or int(d) == me:
+            continue
+        try:
+            with open(f"/proc/{d}/environ", "rb") as f:
+                if needle in f.read():
+                    os.kill(int(d), signal.SIGKILL)
+        except OSError:
+            pass
+
+
 def main(argv=None):
     ap = argparse.ArgumentParser()
     ap.add_argument("pid")
@@ -117,4 +138,9 @@ def main(argv=None):
 
 
 if __name__ == "__main__":
-    sys.exit(main())
+    _code = 3
+    try:
+        _code = main()
+    finally:
+        _reap_leftovers()
+    sys.exit(_code)
